@@ -85,7 +85,11 @@ def step (st : St) (line : String) : St × String :=
     match nats? [r, scaled, num, ksize], natList? hs with
     | some [r, scaled, num, ksize], some hs =>
       match mkSig (nameOf name) (nameOf filename) scaled num ksize hs with
-      | some s => ({ st with sigs := Dict.set st.sigs r s }, "ok " ++ joinOr "," (s.hashes.map toString))
+      | some s =>
+        -- the structural name splitting of the model against `String.splitOn`
+        if firstWord s.name ≠ (s.name.splitOn " ").headD "" ∨ dotPrefix s.name ≠ (s.name.splitOn ".").headD "" then
+          (st, "err SplitMismatch")
+        else ({ st with sigs := Dict.set st.sigs r s }, "ok " ++ joinOr "," (s.hashes.map toString))
       | none => (st, "err ValueError")
     | _, _ => bad
   | ["db", d, ksize, scaled] =>
@@ -186,10 +190,8 @@ def step (st : St) (line : String) : St × String :=
       match lookAll st ds with
       | none => bad
       | some look =>
-        let asg := gatherWith look (hcs.map Prod.fst)
-        let w := if ign || hcs.isEmpty then none else some hcs
-        (st, match countLca asg w with
-          | .ok counts => showCounts (aggregate counts thr)
+        (st, match summarizeWith look hcs thr ign with
+          | .ok agg => showCounts agg
           | .error _ => "err ValueError")
     | _, _, _, _ => bad
   | ["cls", thr, maj, ds, hs] =>
@@ -198,10 +200,8 @@ def step (st : St) (line : String) : St × String :=
       match lookAll st ds with
       | none => bad
       | some look =>
-        let asg := gatherWith look hs
-        (st, match countLca asg none with
-          | .ok counts =>
-            let r := classifyCounts counts thr maj
+        (st, match classifyWith look hs thr maj with
+          | .ok r =>
             let stat := match r.2 with | .nomatch => "nomatch" | .found => "found" | .disagree => "disagree"
             s!"ok {stat} {showLineage r.1}"
           | .error _ => "err ValueError")
